@@ -277,6 +277,8 @@ def run(run: Run):
                "segment values contain no newline (Python's `.` and `$`) - see known findings")
     run.not_decided.append("an arity-generic inverse lemma with symbolic literals (cvc5 and z3 return unknown from two variables on); "
                            "the per-pattern ground proofs stand in, bounded by the grammar")
+    run.native_standin("props.C19_native", "scenarios")
+
 
 
 def falsify(run, group, info):
